@@ -17,11 +17,13 @@
  *   FUNCTAB <n>
  *   T <func_addr> <entry_type> <params_count> <id>
  *   with --trace, after PREPARE <ret>:
- *   t <ip> <sp> <fp> <pp> <running> <exception> <line>  one per dispatched instruction
- *                                           (state BEFORE the instruction executes)
+ *   t <ip> <sp> <fp> <pp> <running> <exception> <line> <kinds>  one per dispatched instruction
+ *                                           (state BEFORE the instruction executes; kinds = hash of the
+ *                                           gc_stack tags of slots 0..sp: h = h*31 + type, low 30 bits —
+ *                                           which slots the collector treats as roots)
  *   g <n>                                   a collection happened (n = number so far)
  *   with --peak instead of --trace no t lines are written; PEAK sp=<max sp> maxdepth=<max number of
- *   frames on the fp chain> steps=<n> is printed before END (for long runs); --nocode omits I/S lines
+ *   frames on the fp chain> steps=<n> collections=<number of collections run> is printed before END (for long runs); --nocode omits I/S lines
  *   OUT <hex of everything the program printed>   (stdout of the run is captured via a pipe)
  *   END <ret> <result type> <result value> steps=<n>
  */
@@ -68,7 +70,11 @@ static void step_hook(vm * m, bytecode * bc)
 {
     if (m->sp > peak_sp) peak_sp = m->sp;
     if (!peak_only)
-        fprintf(out, "t %u %d %d %d %d %d %u\n", m->ip, m->sp, m->fp, m->pp, (int)m->running, (int)m->exception, m->line_no);
+    {
+        unsigned h = 0; int k;
+        for (k = 0; k <= m->sp; k++) h = h * 31u + (unsigned)m->stack[k].type;
+        fprintf(out, "t %u %d %d %d %d %d %u %u\n", m->ip, m->sp, m->fp, m->pp, (int)m->running, (int)m->exception, m->line_no, h & 0x3fffffffu);
+    }
     else if (bc->type == BYTECODE_CALL)
     {
         int n = 0; stack_ptr p = m->pp;
@@ -77,7 +83,7 @@ static void step_hook(vm * m, bytecode * bc)
     }
     if (++steps > max_steps)
     {
-        if (peak_only) fprintf(out, "PEAK sp=%d maxdepth=%d steps=%lu\n", peak_sp, peak_frames, steps);
+        if (peak_only) fprintf(out, "PEAK sp=%d maxdepth=%d steps=%lu collections=%u\n", peak_sp, peak_frames, steps, gc_count);
         fprintf(out, "END budget 0 0 steps=%lu\n", steps);
         fflush(out);
         _exit(0);
@@ -175,6 +181,7 @@ int main(int argc, char ** argv)
     }
     fflush(out);
 
+    fprintf(out, "GCTAGS %d %d %d\n", (int)GC_MEM_IP, (int)GC_MEM_ADDR, (int)GC_MEM_STACK);
     if (trace)
     {
         ret = nev_prepare_argc_argv(prog, entry, nargs, args);
@@ -203,7 +210,7 @@ int main(int argc, char ** argv)
             { unsigned char b[4096]; ssize_t k; while ((k = read(tfd, b, sizeof b)) > 0) for (ssize_t j = 0; j < k; j++) fprintf(out, "%02x", b[j]); }
             fprintf(out, "\n");
             close(tfd);
-            if (peak_only) fprintf(out, "PEAK sp=%d maxdepth=%d steps=%lu\n", peak_sp, peak_frames, steps);
+            if (peak_only) fprintf(out, "PEAK sp=%d maxdepth=%d steps=%lu collections=%u\n", peak_sp, peak_frames, steps, gc_count);
             if (ret == 0)
             {
                 switch (result.type)
